@@ -154,3 +154,97 @@ Proof.
 Qed.
 Print Assumptions C03x_partial_lemma.
 
+(* ---- the same without the escape hypothesis: only the windows and distinct names ---------------------------------------- *)
+Lemma c_beg_flush th s : c_beg s -> c_beg (flush th s).
+Proof.
+  intros HB i x' Hx'. destruct (flush_bwd _ _ _ _ Hx') as (x & Hx & (_ & Ep & _)). rewrite flush_thinst, Ep. eauto.
+Qed.
+
+Lemma c_beg_core s th e s' : c_beg s -> step_core s th e = Some s' -> c_beg s'.
+Proof.
+  intros HB H. destruct (own_ev e) eqn:Hev.
+  - rewrite step_core_own in H by exact Hev.
+    destruct (step_own_mono _ _ _ _ H) as (i & x & x' & Hth & Hx & Hx' & Hoth & _).
+    destruct (step_own_cpc _ _ _ _ H) as [Eti _].
+    intros j y' Hy'. rewrite Eti. destruct (N.eq_dec j i) as [->|Hne]; [right; eauto|]. rewrite (Hoth j Hne) in Hy'. eauto.
+  - pose proof (step_core_thinst _ _ _ _ H Hev) as Hti. pose proof (step_core_cpc _ _ _ _ H Hev) as Hcp.
+    intros j x' Hx'.
+    destruct (step_core_inst_bwd _ _ _ _ H Hev j x' Hx') as [(x & Hx & L)|(Hnx & n & c & -> & Hc & ->)].
+    + destruct (Hcp j x x' Hx Hx') as [[Ep|Hown] _].
+      * rewrite Ep. destruct (HB j x Hx) as [Hd|(t & Ht)]; [left; exact Hd|right; exists t; auto].
+      * right. exists th. auto.
+    + left. cbn. eauto.
+Qed.
+
+Section C03xw.
+Context (cs : amap pconf) (Hwf : wf_confs cs = true).
+Definition R6 (s : sys) (o : obs) : Prop := Rc cs s o /\ Inv s o /\ c_beg s /\ Inv3 s /\ OKo cs o.
+Definition nobad (o : obs) (te : tid * event) : bool := false.
+
+Lemma mon_x' s o th e s' : Rc cs s o -> Inv s o -> c_beg s -> Inv3 s -> OKo cs o -> step_core s th e = Some s' ->
+  mon_C03x cs o (th, e) = true.
+Proof.
+  intros HRc HI HB I3 [ND KO] H. unfold mon_C03x. cbn [snd]. destruct e; try reflexivity.
+  destruct (sdend_guard _ _ _ H) as (order & Hdp & Had).
+  assert (Hin : forall j y, get j (insts s) = Some y -> (exists t, get t (thinst s) = Some j) -> gonepc (pc y) = false -> l_done y = true).
+  { intros j y Hy Hb Hg. pose proof (iv_snap _ I3 th order Hdp j y Hy (or_intror Hb) Hg) as Hm.
+    destruct (all_done_in _ _ _ Had Hm) as (y2 & Hy2 & Hd2). congruence. }
+  apply andb_true_iff. split; apply forallb_forall.
+  - intros [i xo] Hi. cbn. apply (in_get _ _ _ ND) in Hi.
+    destruct (get i (insts s)) as [x|] eqn:Hx; [|rewrite (rc_noinst _ _ _ HRc i Hx) in Hi; discriminate].
+    pose proof (iv_inst _ _ HI i x xo Hx Hi) as P. rewrite (pi_alive _ _ _ P). destruct (alive x) eqn:Ea; [|reflexivity]. exfalso.
+    pose proof (pi_pc _ _ _ P) as B. rewrite Ea in B. specialize (B eq_refl).
+    assert (Hpa : pc x = IAlive) by (destruct (pc x); try discriminate; reflexivity).
+    destruct (HB i x Hx) as [(t & Hpt)|Hb]; [congruence|].
+    assert (Hd : l_done x = true) by (apply (Hin i x Hx Hb); rewrite Hpa; reflexivity).
+    pose proof (pi_done _ _ _ P Hd) as Hnl. rewrite (nl_not_alive _ Hnl) in B. discriminate.
+  - intros [n r] Hn. cbn.
+    assert (Hndo : NoDup (keys (onm o))) by (rewrite KO; apply nodupN_spec, Hwf).
+    pose proof (in_get _ _ _ Hndo Hn) as Hr.
+    assert (Hk : In n (keys cs)). { rewrite <- KO. change n with (fst (n, r)). apply in_map. exact Hn. }
+    destruct (in_keys_get _ _ Hk) as (c & Hc).
+    destruct (rc_name _ _ _ HRc _ _ Hc) as (v & r' & Hv & Hr' & _ & Hst & _). assert (r' = r) by congruence. subst r'.
+    rewrite Hst. destruct (is_running_status (st v)) eqn:Hrun; [|reflexivity]. exfalso.
+    destruct (iv_run _ _ HI _ _ Hv Hrun) as (j & y & Hy & _ & Hdy & Hrp).
+    destruct (HB j y Hy) as [(t & Hpt)|Hb]; [rewrite Hpt in Hrp; discriminate|].
+    rewrite (Hin j y Hy Hb (run_not_gone _ Hrp)) in Hdy. discriminate.
+Qed.
+
+Lemma R6_init ord : R6 (init cs ord) (obs0 cs).
+Proof.
+  split; [apply Rc_init|]. split; [apply Inv_init|]. split; [intros i x H; cbn in H; discriminate|].
+  split; [apply Inv3_init|apply OKo_init].
+Qed.
+
+Lemma R6_step_mon s o e s' : R6 s o -> step s e = Some s' ->
+  W_C03 (obs_step cs o e) = false -> nobad o e = false -> R6 s' (obs_step cs o e) /\ mon_C03x cs o e = true.
+Proof.
+  destruct e as [th e]. intros (HRc & HI & HB & HI3 & HO) H HW _.
+  assert (HRc0 : Rc cs (flush th s) o) by (eapply Rc_sys_same; eauto using sys_same_flush).
+  assert (HI0 : Inv (flush th s) o) by now apply Inv_flush.
+  assert (HB0 : c_beg (flush th s)) by now apply c_beg_flush.
+  assert (HI30 : Inv3 (flush th s)) by now apply Inv3_flush.
+  assert (Hpn : pend (get_thread (flush th s) th) = None).
+  { destruct (flush_thread th s th) as (_ & _ & _ & Ep). rewrite Ep, N.eqb_refl. reflexivity. }
+  pose proof H as H0. unfold step in H0. cbn [fst snd] in H0.
+  split; [|eapply (mon_x' (flush th s)); eauto].
+  split; [exact (Rc_step cs s o th e s' HRc H)|]. split.
+  { rewrite obs_step_pre in *. apply Inv_refresh. eapply (Inv_core cs (flush th s)); eauto. }
+  split; [eapply c_beg_core; eauto|]. split; [eapply (Inv3_core (flush th s) o); eauto|now apply OKo_step].
+Qed.
+End C03xw.
+
+Lemma nobad_run cs : forall evs o, bad_run cs nobad o evs = false.
+Proof. induction evs as [|e r IH]; intros o; cbn; auto. Qed.
+
+Theorem C03x_lemma : forall cs ord evs s,
+  wf_confs cs = true ->
+  accept (init cs ord) evs = Some s ->
+  W_C03 (final_obs cs evs) = false ->
+  holds_C03x cs evs = true.
+Proof.
+  intros cs ord evs s Hwf Hacc HW. unfold holds_C03x.
+  apply (xsim_holds cs ord (R6 cs) (mon_C03x cs) W_C03 nobad (R6_init cs ord) (R6_step_mon cs Hwf) (W_C03_mono cs) evs s Hacc HW (nobad_run cs evs _)).
+Qed.
+Print Assumptions C03x_lemma.
+
